@@ -219,6 +219,7 @@ class Explorer(object):
         self.domain_decided = 0
         self.fact_decided = 0
         self._facts = set()
+        self._atom_cache = {}
         self.incremental_timeout_ms = 15000
         self.fresh_strategy = 'timeout-first'
         self._answered = self.solver
@@ -343,6 +344,17 @@ class Explorer(object):
             pass
 
     def _atom_key(self, t, negate=False):
+        # memo by AST id; the term is stored with the key so that its id cannot be recycled (see DESIGN 9.2)
+        ck = (t.get_id(), negate)
+        hit = self._atom_cache.get(ck)
+        if hit is not None:
+            return hit[1]
+        k = self._atom_key_uncached(t, negate)
+        if len(self._atom_cache) < 200000:
+            self._atom_cache[ck] = (t, k)
+        return k
+
+    def _atom_key_uncached(self, t, negate=False):
         from . import polynorm
         if z3.is_not(t):
             return self._atom_key(t.arg(0), not negate)
